@@ -33,8 +33,8 @@ def fixpoint(text, outtext, opts, cmd, timeout=600):
 
 def run(ctx):
     ctx.rule = ('real ddSMT runs with strategy hierarchical/hybrid, -j 1..4, random delays, random subsets of enabled mutators; '
-                'afterwards every proposal of every enabled mutator on the final output is enumerated with ddSMT\'s own Producer '
-                'and the command is run on each; non-trivial = the final output still has proposals; distinct = distinct '
+                'afterwards every proposal (local and global) of every enabled mutator on the final output is enumerated independently of ddSMT\'s Producer, '
+                'compared with the tasks the Producer generates for the last pass, and the command is run on each; non-trivial = the final output still has proposals; distinct = distinct '
                 '(input, options, command)')
     ctx.proof = common.prove('C02')
     rng = ctx.rng
@@ -51,6 +51,16 @@ def run(ctx):
             extra = ['--no-erase-node', '--no-binary-reduction']
         jobs.append(e2ejobs.job(rng, strategy=rng.choice(['hierarchical', 'hybrid']), extra=extra,
                                 size='small' if i % 3 else 'medium'))
+    # inputs in which the same constant or quoted symbol occurs at several places, under a command that insists on all
+    # literal tokens being equal (occurrences kept in sync): only a step that changes all occurrences at once is accepted
+    both = ['(set-logic ALL)\n(declare-const x Int)\n(declare-const y Int)\n(assert (= x 100))\n(assert (> (+ y 100) (* 100 x)))\n(check-sat)\n',
+            '(set-logic ALL)\n(declare-const v (_ BitVec 8))\n(assert (= (bvadd v #x64) (bvmul #x64 v)))\n(assert (bvult #x64 v))\n(check-sat)\n',
+            '(set-logic ALL)\n(declare-const |a b| Int)\n(assert (> |a b| (+ |a b| 7)))\n(assert (< |a b| 7))\n(check-sat)\n',
+            '(set-logic ALL)\n(declare-const s String)\n(assert (= (str.++ s "abcdef") "abcdef"))\n(assert (str.contains s "abcdef"))\n(check-sat)\n',
+            '(set-logic ALL)\n(declare-const r Real)\n(assert (> r 12.5))\n(assert (< (* 12.5 r) (+ r 12.5 12.5)))\n(check-sat)\n']
+    for k in range(len(both) * (3 if ctx.thorough else 1)):
+        jobs.append(dict(text=both[k % len(both)], opts=['--strategy', rng.choice(['hierarchical', 'hybrid']), '-j', str(rng.choice([1, 2]))],
+                         cmd=[e2e.TOKPRED, 'sync', 'assert'], env={}))
     for j in jobs:
         j['timeout'] = 600 if ctx.thorough else 240
         if not ctx.thorough and '--no-core' in j['opts']:
@@ -83,6 +93,10 @@ def run(ctx):
                           observed=f"the last pass of the run used {sorted(last[-1]['mutators'])}, but the mutators enabled for this input and these options are "
                                    f"{sorted(f['enabled'])}: missing {sorted(set(f['enabled']) - set(last[-1]['mutators']))}",
                           expected='the final sweep covers every enabled mutator')
+        if f.get('nmissing') or f.get('nextra'):
+            ctx.disagree('candidates generated for the last pass vs the proposals of the enabled mutators', input=r.outtext[:800], options=j['opts'],
+                         detail=f"ddSMT's Producer generates {f['produced']} tasks on this input, the enabled mutators propose {f['proposals']}; "
+                                f"not generated: {f['missing'][:3]}; not proposed: {f['extra'][:3]}")
         if f['accepted']:
             ctx.violation('impl-violation', input=j['text'], options=j['opts'], command=j['cmd'], env=j['env'], output=r.outtext,
                           observed=f'{len(f["accepted"])} proposal(s) on the final output are accepted by the command: {f["accepted"][0]}',
